@@ -773,7 +773,11 @@ func TestC14Hostile(t *testing.T) {
 
 // FuzzC14ReadMessage is the native fuzz target (thorough tier): bytes -> decoder with the same oracle.
 func FuzzC14ReadMessage(f *testing.F) {
+	// ProcessInit reduces os.Args to the program name (the service's flag parsing must not see -test.* flags); the fuzzing
+	// coordinator starts its workers from os.Args, so they are put back
+	savedArgs := os.Args
 	stack.ProcessInit()
+	os.Args = savedArgs
 	for cmd, pls := range seedPayloads() {
 		for _, pl := range pls {
 			f.Add(frameOf(cmd, pl, uint32(c14Net)), uint32(70016))
